@@ -26,6 +26,7 @@ tell them apart).  Rounding to binary32/binary64 is round-to-nearest-even, defin
 -/
 import SophiaModel.Basic.TermOrder
 import SophiaModel.Gen.DateTimeFlags
+import SophiaModel.Gen.XsdDispatch
 
 namespace SophiaModel.OrderBy
 open SophiaModel SophiaModel.Term
@@ -594,6 +595,91 @@ def tryFromTyped (lex dt : Str) : Option SparqlValue :=
     | none => none
     | some k => valueOfKind lex k
 
+/-! ### the datatype dispatch as regenerated from the source (Gen/XsdDispatch.lean) and its meaning
+
+`tryFromTyped` above is the hand transcription the theorems are about; `tryFromTypedGen` interprets the table
+`Gen.xsdDispatch` that tools/extractors/c14.py regenerates from `try_from_literal`.  Props/C14.lean proves
+`tryFromTyped = tryFromTypedGen` for all inputs (`tryFromTyped_eq_generated`), so an edit of any arm of the source
+breaks a proof obligation (the model itself stays what the theorems were proved for; the differential then shows
+the inputs). -/
+
+/-- `SparqlNumber::try_parse::<ty>`: the `FromStr` of `ty`, then `Into<SparqlNumber>` -/
+def parseAsSem (ty : String) (lex : Str) : Option SparqlNumber :=
+  if ty == "BigDecimal" then (parseDecimal lex).map (fun p => .decimal p.1 p.2)
+  else if ty == "f32" then (parseF32 lex).map .float
+  else if ty == "f64" then (parseF64 lex).map .double
+  else if ty == "i64" then (parseRanged true (-9223372036854775808) 9223372036854775807 lex).map ofInt
+  else if ty == "i32" then (parseRanged true (-2147483648) 2147483647 lex).map ofInt
+  else if ty == "i16" then (parseRanged true (-32768) 32767 lex).map ofInt
+  else if ty == "i8" then (parseRanged true (-128) 127 lex).map ofInt
+  else if ty == "u64" then (parseRanged false 0 18446744073709551615 lex).map ofInt
+  else if ty == "u32" then (parseRanged false 0 4294967295 lex).map ofInt
+  else if ty == "u16" then (parseRanged false 0 65535 lex).map ofInt
+  else if ty == "u8" then (parseRanged false 0 255 lex).map ofInt
+  else none
+
+/-- the predicates `check` is called with -/
+def predSem (pred : String) : Option (SparqlNumber → Bool) :=
+  if pred == "is_positive" then some SparqlNumber.isPositive
+  else if pred == "is_negative" then some SparqlNumber.isNegative
+  else none
+
+/-- meaning of an arm of the generated table (`none` also for an arm this model has no meaning for) -/
+def armSem : Gen.XsdArm → Str → Option SparqlValue
+  | .parseInteger, lex => numValue (tryParseInteger lex)
+  | .parseAs ty, lex => numValue (parseAsSem ty lex)
+  | .checked negated pred, lex =>
+    match predSem pred with
+    | some p => numValue (checkNum (fun n => if negated then !p n else p n) (tryParseInteger lex))
+    | none => none
+  | .string, lex => some (.string lex none)
+  | .boolean, lex => some (.boolean (parseBool lex))
+  | .dateTime, lex => some (.dateTime (match parseDateTime lex with | .ok d => some d | _ => none))
+
+/-- local name of the datatype of each arm -/
+def kindNameS : XsdKind → String
+  | .integer => "integer" | .decimal => "decimal" | .float => "float" | .double => "double" | .string => "string"
+  | .boolean => "boolean" | .dateTime => "dateTime" | .nonPositiveInteger => "nonPositiveInteger"
+  | .negativeInteger => "negativeInteger" | .long => "long" | .int => "int" | .short => "short" | .byte => "byte"
+  | .nonNegativeInteger => "nonNegativeInteger" | .unsignedLong => "unsignedLong" | .unsignedInt => "unsignedInt"
+  | .unsignedShort => "unsignedShort" | .unsignedByte => "unsignedByte" | .positiveInteger => "positiveInteger"
+
+/-- the arms of `xsdKind` / `valueOfKind` in the order of the source -/
+def XsdKind.all : List XsdKind :=
+  [.integer, .decimal, .float, .double, .string, .boolean, .dateTime, .nonPositiveInteger, .negativeInteger, .long, .int,
+   .short, .byte, .nonNegativeInteger, .unsignedLong, .unsignedInt, .unsignedShort, .unsignedByte, .positiveInteger]
+
+/-- the right-hand side `valueOfKind` transcribes, as a descriptor of the generated table -/
+def armOfKind : XsdKind → Gen.XsdArm
+  | .integer => .parseInteger
+  | .decimal => .parseAs "BigDecimal"
+  | .float => .parseAs "f32"
+  | .double => .parseAs "f64"
+  | .string => .string
+  | .boolean => .boolean
+  | .dateTime => .dateTime
+  | .nonPositiveInteger => .checked true "is_positive"
+  | .negativeInteger => .checked false "is_negative"
+  | .long => .parseAs "i64"
+  | .int => .parseAs "i32"
+  | .short => .parseAs "i16"
+  | .byte => .parseAs "i8"
+  | .nonNegativeInteger => .checked true "is_negative"
+  | .unsignedLong => .parseAs "u64"
+  | .unsignedInt => .parseAs "u32"
+  | .unsignedShort => .parseAs "u16"
+  | .unsignedByte => .parseAs "u8"
+  | .positiveInteger => .checked false "is_positive"
+
+/-- `try_from_literal` for a typed literal, read off the GENERATED table: first arm whose name matches -/
+def tryFromTypedGen (lex dt : Str) : Option SparqlValue :=
+  match xsdName dt with
+  | none => none
+  | some name =>
+    match Gen.xsdDispatch.find? (fun p => name == p.1.toList) with
+    | none => none
+    | some p => armSem p.2 lex
+
 /-- `SparqlValue::try_from_term` -/
 def tryFromTerm : Term → Option SparqlValue
   | .lang lex tag => some (.string lex (some tag))
@@ -694,6 +780,29 @@ def kindRank : Option Term → Option Nat
   | some (.lit _ _) => some 3
   | some (.lang _ _) => some 3
   | _ => none
+
+/-! ## the sort: `slice::sort_unstable_by` on at most 20 elements
+
+`core::slice::sort::unstable::sort` (Rust 1.95, not `optimize_for_size`): `len < 2` → nothing;
+`len <= MAX_LEN_ALWAYS_INSERTION_SORT (= 20)` → `insertion_sort_shift_left(v, 1, is_less)`; otherwise `ipnsort`
+(not modelled).  `insert_tail` moves the new element left past every element it `is_less` than, stopping at the
+first one it is not (or at the beginning).  `is_less(a, b)` is `compare(a, b) == Less`. -/
+
+/-- `insert_tail`; the already sorted prefix is given REVERSED (its last element first) -/
+def insertTail {α : Type} (lt : α → α → Bool) (x : α) : List α → List α
+  | [] => [x]
+  | y :: ys => if lt x y then y :: insertTail lt x ys else x :: y :: ys
+
+/-- `insertion_sort_shift_left(v, 1, is_less)`, result reversed -/
+def insertionSortRev {α : Type} (lt : α → α → Bool) (l : List α) : List α :=
+  l.foldl (fun acc x => insertTail lt x acc) []
+
+/-- `v.sort_unstable_by(c)` for `v.len() <= 20` -/
+def stdSmallSort {α : Type} (c : α → α → Ordering) (l : List α) : List α :=
+  (insertionSortRev (fun a b => c a b == .lt) l).reverse
+
+/-- the number of rows up to which `stdSmallSort` is what std runs -/
+def smallSortMax : Nat := 20
 
 /-- how a pair of terms is compared: by value (`v`) or by the `Term::cmp` fallback (`t`) -/
 def byValue (a b : Term) : Bool := (sparqlCmp a b).isSome
